@@ -545,4 +545,28 @@ theorem renameClasses_nodup_aux (un : Bool) (cs : List Cls) (hwf : ∀ c ∈ cs,
   · exact hnot_i hs
   · exact hnot_j hs
 
+/-! ### inner classes of one class -/
+
+theorem renameInners_spec : ∀ (names reserved : List Str),
+    ((renameInners names reserved).map alnum).Nodup ∧
+    ∀ x ∈ (renameInners names reserved).map alnum, x ∉ reserved
+  | [], _ => by simp [renameInners]
+  | n :: rest, reserved => by
+    obtain ⟨n', hn', hfree⟩ : ∃ n', (if reserved.contains (alnum n) then (uniqueName n reserved).getD n else n) = n' ∧
+        reserved.contains (alnum n') = false := by
+      by_cases hc : reserved.contains (alnum n) = true
+      · obtain ⟨m, hm, hf⟩ := uniqueName_fresh n reserved
+        exact ⟨m, by rw [if_pos hc, hm]; rfl, hf⟩
+      · exact ⟨n, by rw [if_neg hc], by simpa using hc⟩
+    obtain ⟨i1, i2⟩ := renameInners_spec rest (alnum n' :: reserved)
+    rw [renameInners]
+    simp only [hn', List.map_cons, List.nodup_cons]
+    refine ⟨⟨?_, i1⟩, ?_⟩
+    · intro hm
+      exact i2 _ hm (by simp)
+    · intro x hx
+      rcases List.mem_cons.1 hx with rfl | hx
+      · simpa using hfree
+      · exact fun hr => i2 x hx (List.mem_cons_of_mem _ hr)
+
 end Proofs.RenameClasses
